@@ -81,7 +81,7 @@ private:
 
     const ::pydjinni::GlobalRef<jclass> clazz { ::pydjinni::jniFindClass("{{ type_def.jni.class_descriptor }}") };
 
-    const jmethodID method_invoke { ::pydjinni::jniGetMethodID(clazz.get(), "invoke", "{{ type_def.jni.type_signature }}") };
+    const jmethodID method_invoke { ::pydjinni::jniGetMethodID(clazz.get(), "invoke", "{{ type_def.jni.invoke_signature }}") };
 
 //> endif
 };
